@@ -88,7 +88,7 @@ class Servers:
         """one change on volume server n (not an event of the master)"""
         r = self.rng.random()
         s = self.srv[n]
-        if self.tiering and s and r < 0.35:
+        if self.tiering and s and self.rng.random() < 0.3:
             v = self.rng.choice(sorted(s))
             if s[v]["rem"] and self.rng.random() < 0.5:
                 del s[v]
@@ -96,7 +96,7 @@ class Servers:
             else:
                 s[v]["rem"] = not s[v]["rem"]
             return
-        if self.growing and s and r < 0.3:
+        if self.growing and s and self.rng.random() < 0.25:
             v = self.rng.choice(sorted(s))
             s[v]["big"] = not s[v]["big"] if self.rng.random() < 0.3 else True
             return
@@ -104,7 +104,8 @@ class Servers:
             cand = [v["id"] for v in self.vols if v["id"] not in s]
             if cand:
                 v = self.rng.choice(cand)
-                s[v] = {"ro": False, "big": False, "rem": False}
+                # a volume that arrives full (e.g. moved here) is at the limit from its first report on
+                s[v] = {"ro": False, "big": self.growing and self.rng.random() < 0.5, "rem": False}
                 self.pend[n].append({"ev": "inc", "n": n, "newv": [v], "delv": []})
         elif r < 0.45:
             if s:
@@ -209,16 +210,17 @@ def run_prop(ctx, prop):
     base = "SPECIFICATION Spec\nCHECK_DEADLOCK FALSE\nVIEW MCView\n" + "".join("INVARIANT %s\n" % i for i in invs)
     execs = []
     skip_mc = bool(os.environ.get("VERIF_SKIP_MC"))     # development aid for mutant runs: only drive and judge
-    for name, mc in ([] if skip_mc else model_cfgs(prop, ctx.thorough)):
+    for name, mc in model_cfgs(prop, ctx.thorough):
         # 1. layer B model-checked: the layer-A predicates hold of every snapshot the model can report
-        ctx.model_check(ctx.instance("MC_%s_%s" % (prop, name), "MasterTopoImpl", base, mc), workers=4, timeout=800,
-                        label="layer B (%s), repaired code: %s" % (name, ",".join(invs)))
+        if not skip_mc:
+            ctx.model_check(ctx.instance("MC_%s_%s" % (prop, name), "MasterTopoImpl", base, mc), workers=4, timeout=800,
+                            label="layer B (%s), repaired code: %s" % (name, ",".join(invs)))
         if not ctx.replay:
             # 2. G2: one shortest history per distinct model state (hist and budget left out of the view)
             g2 = ctx.instance("G2_%s_%s" % (prop, name), "MasterTopoImpl",
                               "SPECIFICATION Spec\nINVARIANT EmitW\nVIEW View\nCHECK_DEADLOCK FALSE", mc)
             hists = ctx.generate(g2, workers=4, timeout=800)
-            cap = 1500 if ctx.thorough else 150
+            cap = 1200 if ctx.thorough else 150
             if len(hists) > cap:
                 hists = rng.sample(hists, cap)
             execs += [(reset_of(mc), h) for h in hists]
@@ -245,11 +247,11 @@ def run_prop(ctx, prop):
         # 3. G3: random behaviours of a larger instance of the layer-B model
         sc = sim_cfg(prop)
         g3 = ctx.instance("G3_%s" % prop, "MasterTopoImpl", "SPECIFICATION Spec\nINVARIANT Emit\nCHECK_DEADLOCK FALSE", sc)
-        hists = ctx.generate(g3, simulate=1200 if ctx.thorough else 150, depth=sc["MaxOps"] + sc["MaxSrv"] + 1)
+        hists = ctx.generate(g3, simulate=1000 if ctx.thorough else 150, depth=sc["MaxOps"] + sc["MaxSrv"] + 1)
         execs += [(reset_of(sc), h) for h in hists]
         ctx.notes["model_histories"] = len(execs)
         # 4. G4: long random histories over 2-4 servers in 2 data centers / 3 racks, 4 volumes on 2 disk types
-        execs += random_histories(rng, 1000 if ctx.thorough else 150, 20 if ctx.thorough else 14)
+        execs += random_histories(rng, 800 if ctx.thorough else 150, 20 if ctx.thorough else 14)
         script = os.path.join(ctx.out, "script.ndjson")
         write_script(script, execs)
     else:
